@@ -115,6 +115,51 @@ func newRGenFanIn(rng *rand.Rand, focus string) (*rGen, string) {
 	return g, begin
 }
 
+// window traces (monitors only; C04): a target stream breaks and its sender is held at the schedule point right after it
+// closed its hand-off channel — closed, but still in the registry. Batches routed meanwhile meet a closed channel. Then
+// the sender goes on, the target reconnects, later traffic is confirmed. Whatever happened to the hand-offs that met the
+// closed channel, no acknowledgement may cover a task that never reached a target stream. (Outside the model's op
+// language: its `breakTgt` is atomic.)
+func newRGenWindow(rng *rand.Rand, focus string) (*rGen, string) {
+	g, begin := newRGen(rng, focus)
+	g.faultsLeft = 0
+	g.steps = 0
+	var q []string
+	for s := 0; s < g.ns; s++ {
+		q = append(q, fmt.Sprintf("opensrc %d", s))
+	}
+	for t := 0; t < g.nt; t++ {
+		g.lateTgt[t] = false
+		q = append(q, fmt.Sprintf("opentgt %d", t))
+	}
+	a := rng.IntN(g.nt)
+	for s := 0; s < g.ns; s++ {
+		q = append(q, g.genBatchFor(s, a))
+	}
+	q = append(q, fmt.Sprintf("ackall %d", a), "hold", fmt.Sprintf("breaktgt %d", a))
+	for r := 0; r < 1+rng.IntN(2); r++ {
+		for _, s := range rng.Perm(g.ns) {
+			q = append(q, g.genBatchFor(s, a)) // meets the closed channel
+		}
+	}
+	q = append(q, "release", fmt.Sprintf("opentgt %d", a))
+	for _, s := range rng.Perm(g.ns) {
+		q = append(q, g.genBatchFor(s, a))
+	}
+	q = append(q, fmt.Sprintf("ackall %d", a))
+	for s := 0; s < g.ns; s++ {
+		g.high[s] = g.nextID[s] + int64(rng.IntN(3))
+		g.nextID[s] = g.high[s]
+		q = append(q, fmt.Sprintf("batch %d %d", s, g.high[s]))
+	}
+	for t := 0; t < g.nt; t++ {
+		q = append(q, fmt.Sprintf("ackall %d", t))
+	}
+	g.queue = q
+	g.drained = true // no drain phase: the trace has had a fault
+	return g, begin + " window"
+}
+
 // burst traces (monitors only): the same operations, but they follow each other within one instant unless a `nap` of
 // 30 ms … 1.2 s lies between them — acknowledgements a few milliseconds apart, inside one ticker period, across it. Timing
 // inside a second is outside the model's op language (its settle is "until nothing moves"), so only the monitors judge.
@@ -548,6 +593,20 @@ func runRoutingFocus(t *testing.T, focus string) {
 		g, begin := newRGenSlowSrc(e.Rng, focus)
 		ops, viol := runRoutingTrace(t, e, begin, g.next)
 		e.Evals++
+		if len(ops) > 6 {
+			e.Distinct(fnv(strings.Join(ops, "|")))
+		}
+		report(viol)
+	}
+	nWin := 0
+	if focus == "C04" {
+		nWin = n / 10
+	}
+	for i := 0; i < nWin; i++ {
+		g, begin := newRGenWindow(e.Rng, focus)
+		ops, viol := runRoutingTrace(t, e, begin, g.next)
+		e.Evals++
+		e.Count("trace_closed_channel_window")
 		if len(ops) > 6 {
 			e.Distinct(fnv(strings.Join(ops, "|")))
 		}
